@@ -27,6 +27,8 @@ CHECKS = {
             "Requests with Route sets of 0-6 entries (own address / alias / near misses / foreign, decorated entries) are relayed by the simulated proxy; the relayed Route list must equal the reference: own entry consumed only when it designates the receiving listener, next hop stripped unless configured to keep it, the rest unchanged in order."),
     "C04": ("exploration", "3 C04", "seeded simulation of concurrent dialogs with reactive parties, UDP duplication/reordering/loss; pin model driven by observed causality",
             "1-50 concurrent INVITE and SUBSCRIBE dialogs over 2-6 backends behind one or two listeners; backends answer from their configured address, user agents continue a dialog when they observe the answer; every in-dialog request sent after the establishing answer was observed must reach the answering backend and nothing else (requests concurrent with the establishing event are counted don't-cares)."),
+    "C08": ("exploration", "3 C08", "seeded simulation with corruption / truncation / hostile-field faults on both transports; wedge detection as a state (goroutine census at exact quiescence), sentinel transaction per listener after every hostile delivery, allocation bound",
+            "Structural mutations of valid messages (bit flips, insert/delete, truncation, chunk duplication, splicing), raw bytes and hostile field values (Content-Length, Via host, missing or unparsable headers, thousands of headers/parameters) are delivered over UDP and TCP to a proxy carrying valid background traffic; after each one and exact quiescence: no goroutine panicked, all listener goroutines alive and idle, nothing stuck on a lock or channel send, a sentinel request per listener and transport relayed and answered, definitely-malformed TCP streams closed, allocated bytes <= 8 MiB + 64 x bytes delivered. Inputs are sampled by seeded structural mutation, not coverage-guided."),
     "C10": ("exploration", "3 C10", "seeded simulation of back-to-back datagram bursts (simultaneous arrivals) with starvation / PCT / random scheduling of the receive, parse and loop goroutines; truncation and length-lie faults; marker purity plus solo-replay differential",
             "5-200 datagrams of 20 B - 60 KiB, each intact, cut at a drawn offset or lying about its length, arrive in simultaneous bursts so that receive buffers are recycled in scheduler-chosen orders; every emission must carry the marker of exactly one datagram, incomplete or over-declaring datagrams must produce no emission at exact quiescence, intact ones exactly one equal emission, and a sampled datagram must be relayed identically when replayed alone in a fresh world."),
     "C12": ("exploration", "3 C12", "seeded simulation: 2-8 TCP client connections from one simulated address, answers of reactive backends reordered across connections, segmentation and short reads",
